@@ -8,7 +8,8 @@
       RefExact m (number of live handles on the node), i.e.
       ∀ k, ref k = indeg k + #{h | |handles h| = k} + (if k = 1 then 1 else 0),
       `_ref` has no key outside `_succ`
-      ∧ (mode `off = true`) dynamic reordering is not enabled.
+      ∧ (mode `off = true`) dynamic reordering is not enabled;  the mode `off = false` is EVERY
+      configuration: reordering enabled or not, any number of declared variables.
 
   UNCONDITIONAL (no hypothesis about the core left):
     * registry bookkeeping: `C08_wrap`, `C08_drop`, `C08_drop_wrap_id`, `C08_counts`
@@ -181,6 +182,52 @@ theorem C08_ops_unconditional (h : Nat) :
    fun high hs => fChild_keeps high hs h, fun hs => fCopy_keeps hs h,
    fun hu h2 hne => aSucc_keepsL hu h h2 hne, fun hs ho => fEq_keeps0 hs ho,
    fun hs ho => fNe_keeps0 hs ho, aCollectGarbage_keepsAll h⟩
+
+/-- comparisons with an operand that is not a `Function`, and `f ^ g` (no `__xor__`): nothing
+changes in any mode, whatever the answer — `f == None` is `False`, `f != None` is `True`, everything
+else raises `NotImplementedError`; `f ^ g` raises `TypeError` -/
+theorem C08_function_non_function_operands :
+    (∀ op hs x, AKeeps0 off (fCmpOther op hs x)) ∧ (∀ hs ho, AKeeps0 off (fXor hs ho)) ∧
+    (∀ (a : AMgr) hs u, a.handles[hs]? = some u →
+      fCmpOther "eq" hs .none_ a = (.ok false, a) ∧ fCmpOther "ne" hs .none_ a = (.ok true, a) ∧
+      (∀ op, fCmpOther op hs .other a = (.error .notImplemented, a)) ∧
+      (∀ x, fCmpOther "le" hs x a = (.error .notImplemented, a)) ∧
+      (∀ x, fCmpOther "lt" hs x a = (.error .notImplemented, a)) ∧
+      ∀ ho v, a.handles[ho]? = some v → fXor hs ho a = (.error .type, a)) := by
+  have hread : ∀ op hs x, ARead (fCmpOther op hs x) := by
+    intro op hs x
+    unfold fCmpOther
+    refine ARead.bind (nodeOwn_read hs) fun _ => ?_
+    split
+    · exact ARead.pure _
+    · split
+      · exact ARead.pure _
+      · exact ARead.throw _
+  have hxor : ∀ hs ho, ARead (fXor hs ho) := by
+    intro hs ho
+    unfold fXor
+    exact ARead.bind (nodeOwn_read hs) fun _ => ARead.bind (nodeAny_read ho) fun _ => ARead.throw _
+  refine ⟨fun op hs x => AKeeps0.of_read (hread op hs x), fun hs ho => AKeeps0.of_read (hxor hs ho),
+    fun a hs u hu => ?_⟩
+  have hown : nodeOwn hs a = (.ok u, a) := by unfold nodeOwn; rw [hu]
+  have ev : ∀ op x, fCmpOther op hs x a =
+      (if op == "eq" && x == .none_ then (pure false : AM Bool)
+       else if op == "ne" && x == .none_ then pure true else AM.throw .notImplemented) a := by
+    intro op x
+    unfold fCmpOther
+    rw [AM.bind_eq, hown]
+  refine ⟨by rw [ev]; rfl, by rw [ev]; rfl, fun op => ?_, fun x => by rw [ev]; rfl,
+    fun x => by rw [ev]; rfl, fun ho v hv => ?_⟩
+  · rw [ev]
+    have h1 : (AOther.other == AOther.none_) = false := by decide
+    simp only [h1, Bool.and_false, Bool.false_eq_true, if_false]
+    rfl
+  · have hany : nodeAny ho a = (.ok v, a) := by unfold nodeAny; rw [hv]
+    unfold fXor
+    rw [AM.bind_eq, hown]
+    simp only
+    rw [AM.bind_eq, hany]
+    rfl
 
 /-- dynamic reordering possibly ENABLED (mode `off = false`: `AInv false` = the invariant with at
 least two variables; the reordering request may fire at any node creation, C09): for live
